@@ -1,0 +1,42 @@
+//go:build verif
+
+package p2p
+
+import (
+	"encoding/binary"
+
+	"github.com/canopy-network/canopy/lib/crypto"
+)
+
+// Verification hooks (build tag `verif` only; add-only, no production code path uses them).
+
+// VerifCounters returns the 64-bit frame counters currently held in the send and receive nonces of an
+// established EncryptedConn (little-endian at nonce[4:], as incrementNonce reads them).
+func (c *EncryptedConn) VerifCounters() (send, recv uint64) {
+	c.send.Lock()
+	send = binary.LittleEndian.Uint64(c.send.nonce[4:])
+	c.send.Unlock()
+	c.receive.Lock()
+	recv = binary.LittleEndian.Uint64(c.receive.nonce[4:])
+	c.receive.Unlock()
+	return
+}
+
+// VerifSetCounters fast-forwards the frame counters of an established EncryptedConn, so that a harness
+// can let real traffic cross a counter boundary that would otherwise need billions of frames.
+func (c *EncryptedConn) VerifSetCounters(send, recv uint64) {
+	c.send.Lock()
+	binary.LittleEndian.PutUint64(c.send.nonce[4:], send)
+	c.send.Unlock()
+	c.receive.Lock()
+	binary.LittleEndian.PutUint64(c.receive.nonce[4:], recv)
+	c.receive.Unlock()
+}
+
+// VerifIncrementNonce applies incrementNonce to a bare counter value (nonce-uniqueness sweeps).
+func VerifIncrementNonce(counter uint64) uint64 {
+	var n [crypto.AEADNonceSize]byte
+	binary.LittleEndian.PutUint64(n[4:], counter)
+	incrementNonce(&n)
+	return binary.LittleEndian.Uint64(n[4:])
+}
